@@ -67,6 +67,24 @@ claim('C08', 'table rules against PS3.7 E.1 + shape rules on set_length, the dat
       'encode uses. Re-sending is covered together with C16.R4 (no mutation while the lazy encoder is pending).',
       'Trusted: pydicom element encoding and ascending tag order (sorting re-checked by parsing pydicom/dataset.py).',
       'DESIGN.md section 3 C08')
+claim('C09', 'per-iteration path analysis of the context loop in AssociationAcceptor.accept with provenance terms; provenance of the reply fields',
+      'Every path through one iteration of the negotiation loop is enumerated: exactly one answer with the context\'s own id, '
+      'result 0 iff (abstract syntax served as SCP and a transfer syntax proposed for this context is supported), the first such '
+      'syntax returned, routing tables written on exactly that path with the same key and syntax, the provider given the same '
+      'table, _loop serving only recorded contexts, reply header copied from the request.',
+      'Trusted: CPython membership tests and list ordering. Holds for every request and configuration because the paths do not '
+      'depend on them.', 'DESIGN.md section 3 C09')
+claim('C10', 'control-dependence rules on every assignment of the negotiated limit (sibling cross-check), zero-safety of its uses',
+      'Every adoption of the peer\'s value is shown conditional on peer != 0 and (own > peer or own == 0) on both sides; the '
+      'announced values are the own (possibly clamped) limit; the limit reaches encode at its single call site; a limit of 0 is '
+      'treated as "no limit" by both fragmenters and by the provider\'s socket read.',
+      'Not decided: peers announcing 1..6. Trusted: PS3.8 Annex D.1.', 'DESIGN.md section 3 C10')
+claim('C11', 'shape rules on id allocation (parity induction), provenance of the request fields and of the accepted-context tables, exception-flow of get_scu',
+      'Ids: 1 or max+2 with step 2 (odd, increasing, distinct); request fields (AE titles, application context, maximum length '
+      'first, one context per configured entry with all its syntaxes); single guarded writer of the accepted-context tables keyed '
+      'through the proposed list; lookup binds the stored context and converts a miss into ClassNotSupportedError. The missing '
+      'bound of 255 on ids is reported as a known finding.',
+      'Not decided: duplicate SOP classes across several add_* calls (allowed by the standard).', 'DESIGN.md section 3 C11')
 claim('C12', 'interprocedural may-raise analysis (exception-flow over flow.py) with a frozen library exception model; handler shape and blocking-call rules',
       'Shows that no exception raised by peer-driven code leaves the provider thread, that an undecodable PDU becomes exactly Evt19, '
       'that a failing reassembly runs the abort action, that what is sent on Evt19 is a freshly built A-ABORT, that the last-resort '
@@ -80,6 +98,12 @@ claim('C13', 'blocking-call guard rule, table exit rows, typestate "user informe
       'Not decided: wall-clock bounds and OS socket behaviour. Each loop iteration is bounded under the assumption that sendall '
       'makes progress.', 'DESIGN.md section 3 C13')
 
+claim('C14', 'provenance of (result, source, reason) along the refusal chain; path rules on _establish, handle, _handle_errors, request_association',
+      'Position-by-position provenance: application error -> reject() -> A-ASSOCIATE-RJ constructor -> (C02 wire positions) -> '
+      'requestor error, incl. the exception classes\' own parameter->attribute maps; refusal re-raised, accept() and _loop '
+      'unreachable after it; RELEASE-RQ/ABORT/RJ mapped to the right errors with fields in order; release answered with '
+      'A-RELEASE-RP; the context manager releases on normal exit, aborts and re-raises on exception.',
+      'Trusted: C02 for wire positions. Not decided: timing relative to DIMSE traffic.', 'DESIGN.md section 3 C14')
 claim('C18', 'shape rules (provenance) on add_status/register_statuses/Status.__init__ + interval arithmetic on the folded KNOWN_STATUSES table',
       'Exhaustive over 65536 codes x 11 response classes + none without enumerating codes: the registration and lookup '
       'functions are shown to implement inclusive ranges and specific-before-general-before-UNKNOWN, then the 57 rows are '
